@@ -704,6 +704,24 @@ pub fn confusable_pairs() -> Vec<(String, String)> {
         p("a..b", "a.b"),
         p(".a", "a"),
         p("a.", "a"),
+        // other languages' ways of writing a reference or a path: plain text here
+        p("$a", "a"),
+        p("${a}", "a"),
+        p("{{a}}", "a"),
+        p("%a%", "a"),
+        p("@a", "a"),
+        p(":a", "a"),
+        p("$.a", "a"),
+        p("/a", "a"),
+        p("a[0]", "a.0"),
+        p("a[1]", "a.1"),
+        p("a[-1]", "a.-1"),
+        p("a/1", "a.1"),
+        p("a['b']", "a.b"),
+        p("a->b", "a.b"),
+        p("a:b", "a.b"),
+        p("pair[0]", "pair.0"),
+        p("o[a]", "o.a"),
     ]
 }
 
@@ -758,4 +776,37 @@ pub fn unreached_illformed(x: &Value) -> Vec<Value> {
         out.push(json!({"if": [x, "yes", "", bad, "no"]}));
     }
     out
+}
+
+/// Pairs of different values that look alike under some fingerprint: same spelling across types, same
+/// double across number representations, same string form across containers, same text up to case.
+pub fn lookalike_twins() -> Vec<(Value, Value)> {
+    let mut v = spelling_twins();
+    for (a, b) in [("0", r#""0""#), ("false", "0"), (r#""""#, "null"), (r#""a""#, r#""A""#), ("9007199254740992", "9007199254740993"), ("18446744073709551614", "18446744073709551615"),
+                   ("-9223372036854775808", "-9223372036854775807"), ("1.5", r#""1.5""#), ("false", r#""false""#), ("[1,2]", r#""1,2""#), (r#"{"a":1}"#, r#"{"a":1.0}"#), ("0.1", "0.10000000000000002"),
+                   ("[0]", "[false]"), (r#"{"a":1,"b":2}"#, r#"{"a":1,"b":"2"}"#)] {
+        v.push((parse(a), parse(b)));
+    }
+    let rev: Vec<(Value, Value)> = v.iter().map(|(a, b)| (b.clone(), a.clone())).collect();
+    v.extend(rev);
+    v
+}
+
+/// Numbers whose JSON text is as long as number texts get (17 significant digits, a sign, a three-digit
+/// exponent with its own sign: 24 bytes), the longest integers, and their neighbours in length: a fixed-size
+/// formatting buffer, a "numbers are short" assumption or a round trip through another float format cuts or
+/// alters exactly these.
+pub fn long_number_texts() -> Vec<Value> {
+    let mut fs: Vec<f64> = vec![
+        1.7976931348623157e308, 2.2250738585072014e-308, 1.2345678901234567e100, 1.2345678901234567e-100, 1.2345678901234567e-7, 9.88131291682493e-324, 2.2250738585072009e-308,
+        1.2345678901234568e20, 1.2345678901234567e21, 123456789012345.67, 0.00001234567890123456, 1.0000000000000002, 4.35, 0.1, 1e21, 1e-7, 123456789012345680.0, 5e-324, 1.7976931348623155e308,
+        4.9406564584124654e-324, 0.30000000000000004, 1e300, 1.5e-300,
+    ];
+    let neg: Vec<f64> = fs.iter().map(|f| -f).collect();
+    fs.extend(neg);
+    let mut out: Vec<Value> = fs.into_iter().map(|f| json!(f)).collect();
+    for t in ["-9223372036854775808", "9223372036854775807", "18446744073709551615", "-9007199254740993", "-1000000000000000000", "10000000000000000000"] {
+        out.push(parse(t));
+    }
+    dedup(out)
 }
